@@ -207,10 +207,46 @@ func boundaryGrid() []Job {
 
 // independent rules with pairwise distinct destinations, every permutation as a
 // job of its own (fresh objects per job: each job is its own case).
-func genIndependent(r *prng, st map[string]int) ([]string, *docInfo, []StaticVar) {
+// one value-producing mechanism used by every rule of the block, with different
+// values, into text destinations (which keep a pointer to what they were
+// given): storage shared between two results of the same mechanism shows as a
+// destination changed by a later rule
+var aliasFamilies = [][]string{
+	{"itoa(jso.n)", "itoa(jso.big)", "itoa(jso.m)", "itoa(jso.o.k)"},
+	{"utoa(jso.big)", "utoa(jso.m)", "utoa(jso.o.k)", "utoa(jso.z)"},
+	{"itoa(st.Status)", "intToStr(ivar)", "itoa(jso.big)", "utoa(st.Ustate)", "uintToStr(uvar)"},
+	{"ivar", "uvar", "st.Status", "st.Ustate", "bvar", "st.Finance.AllowBuy"},
+	{"jso.s|upper()", "jso.s2|upper()", "jso.o.name|upper()", "jso.bigs|upper()"},
+	{"crc32(jso.s)", "crc32(jso.s2)", "crc32(jso.bigs)", "crc32(jso.o.name)"},
+	{"ident(jso.s)", "ident(jso.s2)", "ident(jso.bigs)", "konst()"},
+	{"jso.nul|default(\"dflt\")", "jso.missing|default(jso.s)", "jso.e|default(ivar)", "jso.z|default(uvar)"},
+	{"jso.n", "jso.big", "jso.s", "jso.bigs", "jso.t"},
+}
+var textDsts = []string{"obj.Id", "obj.Name", "ts.S", "ts.B", "obj.Finance.History[0].Comment", "obj.Finance.History[1].Comment"}
+
+func genIndependent(r *prng, st map[string]int, gi int) ([]string, *docInfo, []StaticVar) {
 	d := genDoc(r)
 	g := &pgen{r: r, d: d, opts: genOpts{floats: false, userFns: true}, stats: st}
 	g.statics = defaultStatics(r)
+	if gi%2 == 0 {
+		fam := append([]string{}, aliasFamilies[(gi/2)%len(aliasFamilies)]...)
+		ds := append([]string{}, textDsts...)
+		for i := len(fam) - 1; i > 0; i-- {
+			j := r.intn(i + 1)
+			fam[i], fam[j] = fam[j], fam[i]
+		}
+		for i := len(ds) - 1; i > 0; i-- {
+			j := r.intn(i + 1)
+			ds[i], ds[j] = ds[j], ds[i]
+		}
+		n := 2 + r.intn(2)
+		var rules []string
+		for i := 0; i < n; i++ {
+			rules = append(rules, ds[i]+" = "+fam[i])
+		}
+		st["one mechanism, several text destinations"]++
+		return rules, d, g.statics
+	}
 	dsts := append([]dstExpr{}, dstPool...)
 	// shuffle
 	for i := len(dsts) - 1; i > 0; i-- {
@@ -369,19 +405,40 @@ func init() {
 	runners["C02"] = func(cfg *runCfg) (*Summary, error) {
 		var pending []*ICase
 		var group []*ICase
+		ngroups := 0
 		return runInterp(cfg, "C02", 260, 2600,
 			"sequences of 2-4 rules with pairwise distinct destinations and no data dependencies (literals of lengths 1,3,8,9,17,33; getters; modifiers; nodes; struct fields; a context variable), every permutation executed as its own case on fresh objects; oracle: all permutations end in the same fields and context variables",
 			func(r *prng, i int, st map[string]int) *ICase {
 				if len(pending) == 0 {
-					rules, d, statics := genIndependent(r, st)
+					rules, d, statics := genIndependent(r, st, ngroups)
 					group = nil
+					recycled := ngroups%4 == 2
+					if recycled {
+						// context variables on a context that an earlier decode has used
+						// and Reset has emptied: the earlier decode declares the same
+						// names in one fixed order, the permutations follow
+						srcs := []string{`"ctxlit"`, "jso.s", "77", "jso.n", `"c"`, "ivar", "jso.s2"}
+						rules = nil
+						for k, nm := range []string{"cva", "cvb", "cvc"} {
+							rules = append(rules, "ctx."+nm+" = "+srcs[(ngroups/4+2*k)%len(srcs)])
+						}
+						st["context variables on a recycled context"]++
+					}
+					getv := []string{"cvx", "cvy", "cva", "cvb", "cvc"}
+					first := Job{Prog: strings.Join(rules, "\n") + "\n", doc: d.doc, Statics: statics, Fail: -1, GetVars: getv}
 					for _, p := range permutations(len(rules)) {
 						var ls []string
 						for _, k := range p {
 							ls = append(ls, rules[k])
 						}
-						pending = append(pending, singleJob(fmt.Sprint("perm ", p), Job{Prog: strings.Join(ls, "\n") + "\n", doc: d.doc, Statics: statics, Fail: -1, GetVars: []string{"cvx", "cvy"}}))
+						j := Job{Prog: strings.Join(ls, "\n") + "\n", doc: d.doc, Statics: statics, Fail: -1, GetVars: getv}
+						if recycled {
+							pending = append(pending, &ICase{Tag: fmt.Sprint("perm (recycled context) ", p), Jobs: []Job{first, j}})
+						} else {
+							pending = append(pending, singleJob(fmt.Sprint("perm ", p), j))
+						}
 					}
+					ngroups++
 				}
 				c := pending[0]
 				pending = pending[1:]
@@ -393,12 +450,12 @@ func init() {
 					return
 				}
 				key := func(x *ICase) string {
-					ls := strings.Split(strings.TrimSpace(x.Jobs[0].Prog), "\n")
+					ls := strings.Split(strings.TrimSpace(x.Jobs[len(x.Jobs)-1].Prog), "\n")
 					sort.Strings(ls)
-					return x.Jobs[0].Doc + "\x00" + strings.Join(ls, "\n")
+					return fmt.Sprint(len(x.Jobs)) + x.Jobs[0].Doc + "\x00" + strings.Join(ls, "\n")
 				}
 				if len(group) > 0 && key(group[0]) == key(c) {
-					a, b := group[0].Obs[0], c.Obs[0]
+					a, b := group[0].Obs[len(group[0].Obs)-1], c.Obs[len(c.Obs)-1]
 					if a.Res == "None" && (b.Res != a.Res || !reflect.DeepEqual(a.Fields, b.Fields) || !reflect.DeepEqual(a.Vars, b.Vars)) {
 						addFail(sum, "two orderings of independent rules end in different states", c, group[0], b)
 					}
